@@ -580,7 +580,9 @@ func runCtx(fields []string) string {
 			return res
 		}
 	}
-	return res + "\tO=no pooled context was reused in 6 attempts (sync.Pool): the case does not exercise recycling"
+	// sync.Pool may legitimately hand out fresh contexts (a collection empties it): the case then exercised no recycling.
+	// That is a coverage remark (counted in the evidence), not a disagreement.
+	return res + "\tU=no-pooled-context-reused"
 }
 
 // runCtxConc: goroutines issue random shapes concurrently (own tokens) while another one replaces the tree
